@@ -17,6 +17,7 @@ int ft_join(int id);
 void ft_post(int id, int cmd, int arg, int n, int kind);
 int ft_result(int id);
 int ft_ncalls(int id);
+int ft_seen_after(int id);
 void ft_set_callbacks(int (*on_idle)(int), int (*cb)(int, int));
 int count_tstates(void);
 int call_cb_from_here(int id, int arg, int kind);
@@ -31,7 +32,7 @@ SRC = r"""
 #define MAXT 64
 #define CMD_CALL 1
 #define CMD_EXIT 2
-typedef struct { pthread_t th; volatile int cmd, arg, n, kind; volatile int result, ncalls; int started; } ft_t;
+typedef struct { pthread_t th; volatile int cmd, arg, n, kind; volatile int result, ncalls, seen_after; int started; } ft_t;
 static ft_t fts[MAXT];
 static int (*g_on_idle)(int);
 static int (*g_cb)(int, int);
@@ -54,7 +55,13 @@ static void *ft_main(void *p)
         if (fts[id].cmd == CMD_EXIT) break;
         if (fts[id].cmd == CMD_CALL) {
             for (i = 0; i < fts[id].n; i++) {
-                fts[id].result = call_cb_from_here(id, fts[id].arg + i, fts[id].kind);
+                if (fts[id].kind >= 3) {            /* errno-carrying call (C22): kind 3 libffi, 4 extern "Python" */
+                    errno = fts[id].arg;
+                    fts[id].result = call_cb_from_here(id, fts[id].arg, fts[id].kind - 3);
+                    fts[id].seen_after = errno;
+                }
+                else
+                    fts[id].result = call_cb_from_here(id, fts[id].arg + i, fts[id].kind);
                 fts[id].ncalls++;
             }
         }
@@ -73,6 +80,7 @@ void ft_post(int id, int cmd, int arg, int n, int kind)
 { fts[id].arg = arg; fts[id].n = n; fts[id].kind = kind; fts[id].cmd = cmd; }
 int ft_result(int id) { return fts[id].result; }
 int ft_ncalls(int id) { return fts[id].ncalls; }
+int ft_seen_after(int id) { return fts[id].seen_after; }
 void ft_set_callbacks(int (*on_idle)(int), int (*cb)(int, int)) { g_on_idle = on_idle; g_cb = cb; }
 
 /* number of PyThreadStates of the current interpreter (declared by hand: the generated
